@@ -21,6 +21,17 @@ CLAIMED = {
              ref='4 C05', technique='Coq proof (adjoint by Fubini over a hand-written model) + exact backward-model/autograd correspondence + Jacobian oracle search'),
  'C10': dict(text='Proof (Coq): for ANY pair of equal-shape coefficient tensors the model of sfb1d returns PyWavelets idwt closed form in the four non-periodization modes (C10_level_nonper_row, all sizes) and the circular synthesis in periodization under the guard L-2 <= 2n (C10_level_per_row = single fold + roll is circular, via syn_per_fold), with the code formula characterised for every size (C10_level_per_row_code) and a kernel-checked witness below the guard (C10_per_short_refuted = KF-PER-SHORT). Model tied to the code by exact operator-matrix correspondence incl. every None mask of the inverse modules; closed forms tied to pywt.idwt by correspondence B; trim rule, None handling and level loop by correspondence + oracle (KF-NONE-OVERSIZE).',
              ref='4 C10', technique='Coq proof over a hand-written model + exact model/implementation correspondence + pywt waverec oracle search'),
+
+ 'C07': dict(text='Proof (Coq): linearity of the four closed forms (analysis, periodized analysis, synthesis, circular synthesis) that the analysis/synthesis models are proved to compute, for all sizes and filters over any commutative ring, and slice independence of the analysis model: one line operator F, not mentioning n, c, the row, N or C, gives every output entry (C07_slice_afb_zero; the other modes have the same statement shape in C01_level_row). The tie uses N,C in {1,2,3} with distinct integer slices so that a channel/batch leak changes an integer; every public transform incl. SWT and DTCWT is checked by the oracle for T(0)=0, superposition and batched == per-slice.',
+             ref='4 C07', technique='Coq proof (linearity + slice-independent normal form) + exact correspondence with distinct slices + oracle'),
+ 'C13': dict(text='Proof (Coq): for every size (multi-wrap included), even filter length, dilation d>=1 and filter, the model of afb1d_atrous with wrap-around padding is the circular correlation with the d-dilated filter at PyWavelets alignment (C13_level_row, C13_closed_form), full resolution (shape preserved), and that closed form is shift-equivariant for every circular shift (C13_shift). Model tied to the code by exact operator-matrix correspondence (6 pad modes, 3 dilations) and SWTForward level loop/band order/both mode names by correspondence + pywt.swt2 and shift oracles.',
+             ref='4 C13', technique='Coq proof over a hand-written model + exact correspondence + pywt.swt2 / shift oracle'),
+ 'C14': dict(text='Proof (Coq): the Function used by the 2-D modules is the library functional bank with the same four filters split into bands (C14_forward_is_functional, C14_inverse_is_functional), and its first pass applies the ROW pair along the last axis and equals PyWavelets 1-D transform of every row with the row wavelet (C14_row_pair_on_last_axis, from C01). Which module buffer reaches which parameter is pinned by exact correspondence with row/column filters of different lengths (buffers read back by name, constructor order asserted) and by the oracle against pywt with one wavelet per axis and against lowlevel.afb2d/sfb2d. Known finding KF-PER-SHORT.',
+             ref='4 C14', technique='Coq proof + exact correspondence (different-length row/column filters) + per-axis pywt oracle'),
+ 'C17': dict(text='Proof (Coq): for all even N, even L>=2, filters and signals over any commutative ring the circular synthesis with the analysis filter is the transpose of the circular analysis (C17_inverse_is_transpose), hence inner products and energy are preserved whenever that synthesis reconstructs (C17_inner_from_pr); the model computes exactly these closed forms under the property guard (every level even and >= L) by C01_level_row_per / C10_level_per_row. Orthonormality of the real PyWavelets pairs (the reconstruction hypothesis) is measured by the oracle on the extracted operator (A^T A, A A^T, S - A^T, Jacobian^T - S), not yet discharged in Coq.',
+             ref='4 C17', technique='Coq proof (transpose + inner-product preservation) + exact correspondence + operator-extraction oracle'),
+ 'C19': dict(text='Proof (Coq): the outer-product kernel of the non-separable model factorises the 2-D correlation into the column correlation of the row correlations, entry by entry, for every stride and padding (C19_kernel_factorises). Both the non-separable and the separable models are tied to the code by exact correspondence on the same integer data (2- and 4-filter forms, different row/column lengths, odd and short sizes, four modes), and the two functional APIs are compared directly by the oracle; the mode-by-mode equality of the two padded pipelines is not yet a composed theorem.',
+             ref='4 C19', technique='Coq proof (kernel factorisation) + exact correspondence of both models + API-vs-API oracle'),
 }
 REASONS_PENDING = 'check under construction in this session (Coq model and correspondence exist or are being built; not yet registered)'
 
